@@ -271,7 +271,7 @@ impl ColumnType<'_> {
             ColumnType::Collection { .. } => None,
             ColumnType::Vector { typ, dimensions } => typ
                 .type_size_for_vector()
-                .map(|size| size * usize::from(*dimensions)),
+                .map(|size| size.saturating_mul(usize::from(*dimensions))),
             ColumnType::UserDefinedType { .. } => None,
         }
     }
